@@ -97,13 +97,15 @@ func H_C07_readMore() {
 }
 
 // H_C07_synchronise: the scan for a 20-byte synchronisation pattern (the server's req1 hash)
-// over a stream of 32 bytes of which 0..8 are already buffered, any segmentation, scan limit
-// 32: if the pattern occurs within the limit the scan succeeds - wherever a read boundary falls
-// - and returns exactly the received bytes that follow its FIRST occurrence.
+// over a stream of 40 bytes of which 0..8 are already buffered, any segmentation, scan window
+// 32, read-ahead limit 36: the scan succeeds exactly when the pattern occurs ENTIRELY WITHIN THE
+// WINDOW - wherever a read boundary falls, and however much more arrives glued to it (an
+// occurrence that only a coalesced read would reveal must not count, or the outcome would depend
+// on segmentation) - and returns exactly the received bytes that follow its FIRST occurrence.
 func H_C07_synchronise() {
-	all := vBytes("all", 32)
-	vAssume(len(all) == 32)
-	all = all[:32]
+	all := vBytes("all", 40)
+	vAssume(len(all) == 40)
+	all = all[:40]
 	pre := vInt("pre")
 	vAssume(pre >= 0 && pre <= 8)
 	v := vBytes("v", 20)
@@ -113,7 +115,7 @@ func H_C07_synchronise() {
 	w := append(make([]byte, 0, 8), all[:pre]...)
 	// reference: position of the first occurrence in the whole stream
 	first := -1
-	for i := 12; i >= 0; i-- {
+	for i := 20; i >= 0; i-- {
 		m := true
 		for k := 0; k < 20; k++ {
 			m = vAnd(m, all[i+k] == v[k])
@@ -121,7 +123,7 @@ func H_C07_synchronise() {
 		first = vIte(m, i, first)
 	}
 	out, err := synchronise(c, w, v, 32, 36)
-	if first >= 0 {
+	if first >= 0 && first+20 <= 32 {
 		vReach("occurs")
 		vAssert(err == nil, "a pattern that occurs within the limit is found, whatever the segmentation")
 		if err == nil {
@@ -134,6 +136,6 @@ func H_C07_synchronise() {
 		}
 	} else {
 		vReach("absent")
-		vAssert(err != nil, "no pattern, no synchronisation")
+		vAssert(err != nil, "no pattern within the window, no synchronisation - whatever the segmentation")
 	}
 }
